@@ -23,10 +23,14 @@ func (w *vWriter) Write(p []byte) (int, error) {
 // ReadNode over those bytes followed by arbitrary trailing bytes returns the same (cid, data) and
 // stops exactly at the end of the section.
 func VerifH_C01_FrameRoundTrip() {
-	c := vCidRaw("cid", 6)
-	n := vChoose("dataLen", 4)
+	k, nmax, tn := 6, 4, 2
+	if vTier() == 1 {
+		k, nmax, tn = 8, 9, 4 // CIDs with 4-byte digests and multi-byte varint fields, data 0..8
+	}
+	c := vCidRaw("cid", k)
+	n := vChoose("dataLen", nmax)
 	data := vBytes("data", n)
-	tail := vBytes("tail", 2)
+	tail := vBytes("tail", tn)
 
 	w := &vWriter{}
 	err := LdWrite(w, c.Bytes(), data)
